@@ -186,7 +186,9 @@ def chunk_indices(k, runs, nchunks):
 
 
 def n_chunks(runs, jobs):
-    return max(1, min(runs, jobs * 6))
+    # at most 64 runs per freshly forked child: many cold starts (module- and class-level
+    # state empty) as well as warm ones, and short histories to replay
+    return max(1, min(runs, max(jobs * 6, (runs + 63) // 64)))
 
 
 def run_batch(mod, seed, tier, runs, wall, jobs):
